@@ -1,6 +1,7 @@
 import Orca.Gen.RefTables
 import Orca.Lemmas.Ops
 import Orca.Lemmas.Preserve
+import Orca.Gen.MapSites
 /-!
 # C06 — function references stay bound to the same function across edits
 
@@ -108,5 +109,15 @@ theorem c06_encode_refs_after_any_history (s0 : St) (h0 : StInv s0) (ops : List 
     ∨ (∃ s' why, encode s = (s', Ret.panic why) ∧ ∃ r ∈ allRefs s, Dangling s r) :=
   let h := spaceInv_after s0 h0 ops hn
   encode_spec _ h.1 h.2.1 h.2.2
+
+/-- **the model was written against these uses of the function map** (`section:map:how`, in source order): resolution of
+    special modes, the start function (stored back), table initialisers, global initialisers (`ref.func`), function exports,
+    element function lists and element expressions / offsets, the code loop (operators and every injected list), data offsets,
+    the function-keyed names. A use that appears, disappears or moves to another section of the encoder makes this fail: the
+    clauses of `fixAll` (in place / on the fly / raw) must then be reviewed. The helpers that take the maps are listed too. -/
+theorem c06_function_map_uses_reviewed :
+    Orca.Gen.mapUsesFunc = ["resolve-special:func:pass", "start:func:get", "tables:func:pass", "globals:func:pass", "exports:func:get", "elements:func:get", "elements:func:pass", "elements:func:pass", "code:func:pass", "code:func:pass", "code:func:pass", "code:func:pass", "code:func:use", "code:func:use", "data:func:pass", "names:func:get"]
+    ∧ Orca.Gen.mapHelpers = ["fix_op_id_mapping:func+global+memory", "remap_const_expr:func+global+memory",
+        "resolve_special_instrumentation:func+global+memory", "update_ids_and_encode:func+global+memory"] := by decide
 
 end Orca.Edit
